@@ -38,7 +38,7 @@ def shards(tier):
 
 
 def timeout(tier):
-    return 300 if tier == "quick" else 2400
+    return 900 if tier == "quick" else 5400
 
 
 def lookalikes(d):
